@@ -338,6 +338,28 @@ def build_ir(idx, vals):
     return fading.TdlImpulseResponse(vals, prof)
 
 
+def make_matrix_channel(idx, vals):
+    """a real TdlChannel (equal-power taps on the samples `idx`) whose next transmission of vals.shape[1] samples sees
+    the tap values `vals` (taps x samples)"""
+    fading, fg = B._fading()
+    vals = np.asarray(vals, dtype=complex)
+    mat = vals * math.sqrt(len(idx))                   # the channel applies sqrt(1 / number of taps) to every tap
+
+    class MatrixGen(fg.RayleighSampleGenerator):
+        def __init__(self):
+            super().__init__(shape=None)
+
+        def generate_more_samples(self, num_samples=None):
+            n = 1 if num_samples is None else int(num_samples)
+            k = self._shape[0] if self._shape else 1
+            self._samples = mat.copy() if (k, n) == mat.shape else np.ones((k, n), dtype=complex)
+
+        def skip_samples_for_next_generation(self, num_samples):
+            pass
+
+    return fading.TdlChannel(MatrixGen(), tap_powers_dB=np.zeros(len(idx)), tap_delays=np.array(idx, dtype=float), Ts=1.0)
+
+
 def _slow(case):
     """a channel that varies a little inside each OFDM symbol is NOT static: the equaliser divides by the mean
     response over the samples of the symbol"""
@@ -359,6 +381,19 @@ def _slow(case):
         if relerr(out, fp) > SLOW_TOL * max(1.0, cond):
             return 'R15:slowly-varying:%s,%s' % (kind, pos), 'step %d: relative error %.3g against data / mean_j H_j (conditioning %.3g)' % (
                 k, relerr(out, fp), cond)
+        # the same slowly varying taps inside a real channel: sample m of the signal meets the taps of sample m
+        tx = B.cx(st['tx'])
+        try:
+            ch = make_matrix_channel(idx, vals)
+            rx = ch.corrupt_data(tx.copy())
+            rep = np.asarray(ch.get_last_impulse_response().tap_values_sparse)
+        except Exception as e:
+            return 'R15:slowly-varying:channel-raises:%s' % kind, '%s: %s' % (type(e).__name__, str(e)[:120])
+        if rep.shape != vals.shape or not float(np.max(np.abs(rep - vals) / np.abs(vals))) <= SLOW_TOL:
+            return 'R15:slowly-varying:reported-taps:%s,%s' % (kind, pos), 'step %d' % k
+        if relerr(rx, fp_corrupt(idx, rep, tx)) > SLOW_TOL:
+            return 'R15:slowly-varying:channel-output:%s,%s' % (kind, pos), 'step %d: relative error %.3g against sum_t h_t[m] x[m]' % (
+                k, relerr(rx, fp_corrupt(idx, rep, tx)))
     return None
 
 
@@ -554,13 +589,14 @@ def _two_roles(case):
             sn = B._snap(a)
             t = obj.modulate(a)
             d = obj.demodulate(a)
+            if not B._same(a, sn):
+                return 'R16:argument-modified:modulate+demodulate', 'the array handed to modulate and then to demodulate changed'
             t2 = obj.modulate(a)
             if relerr(t, fp_modulate(f, 0, f, sn[2])) > TOL or not same_bits(t, t2):
-                return 'R16:modulate:same-array-also-demodulated', 'relative error %.3g' % relerr(t, fp_modulate(f, 0, f, sn[2]))
+                return 'R16:modulate:same-array-also-demodulated', 'relative error %.3g; same result before and after demodulate(a): %s' % (
+                    relerr(t, fp_modulate(f, 0, f, sn[2])), same_bits(t, t2))
             if relerr(d, fp_demodulate(f, 0, f, sn[2])) > TOL:
                 return 'R16:demodulate:same-array-also-modulated', 'relative error %.3g' % relerr(d, fp_demodulate(f, 0, f, sn[2]))
-            if not B._same(a, sn):
-                return 'R16:argument-modified:modulate+demodulate', ''
             return None
         if what == 'powers-is-delays':
             a = np.array(case['a'], dtype=float)       # the SAME array as tap powers (dB) and as tap delays (samples)
@@ -582,6 +618,29 @@ def _two_roles(case):
             if not same_bits(r1, r2):
                 return 'R16:TdlChannel:same-array-powers-and-delays', 'output differs from the channel built on two separate arrays'
             return None
+        if what == 'profile-in-two-channels':
+            # ONE (not yet discretised) profile object serves two channels with different sampling intervals
+            p = np.array(case['powers_dB'], dtype=float)
+            d = np.array(case['delays'], dtype=float)                 # even sample numbers at Ts = 1
+            prof = fading.TdlChannelProfile(p, d, 'shared')
+            ch1 = fading.TdlChannel(B._static_gen(B.cx(case['draw'])), prof, Ts=1.0)
+            ch2 = fading.TdlChannel(B._static_gen(B.cx(case['draw'])), channel_profile=prof, Ts=2.0)
+            ch3 = fading.TdlChannel(B._static_gen(B.cx(case['draw'])), prof, Ts=1.0)
+            if prof.is_discretized or prof.Ts is not None or not np.array_equal(prof.tap_delays, d) \
+                    or not np.array_equal(prof.tap_powers_dB, p) or prof.name != 'shared':
+                return 'R16:TdlChannel:profile-argument-modified', 'the caller\'s profile: Ts %r, delays %r' % (prof.Ts, list(prof.tap_delays))
+            x = B.cx(case['x'])
+            for ch, Ts in ((ch1, 1.0), (ch2, 2.0), (ch3, 1.0)):
+                idx, pw = B.expected_discretisation(case['delays'], case['powers_dB'], Ts)
+                if [int(v) for v in ch.channel_profile.tap_delays] != idx:
+                    return 'R16:TdlChannel:profile-shared-by-two-channels', 'Ts %g: taps on %r, expected %r' % (
+                        Ts, list(ch.channel_profile.tap_delays), idx)
+                gains = np.resize(B.cx(case['draw']), len(idx)) * np.sqrt(np.array(pw))
+                dense = np.zeros(idx[-1] + 1, dtype=complex)
+                dense[idx] = gains
+                if relerr(ch.corrupt_data(x.copy()), B.direct_convolution(dense, x)) > TOL:
+                    return 'R16:TdlChannel:profile-shared-by-two-channels', 'Ts %g: output differs from the convolution' % Ts
+            return None
         if what == 'data-is-taps':
             f, u = case['fft'], case['used']
             obj = o.OFDM(f, 0, u)
@@ -594,7 +653,7 @@ def _two_roles(case):
             if relerr(out, fp) > TOL + 1e-12 * cond:
                 return 'R16:equalize_data:data-shares-memory-with-taps', 'relative error %.3g' % relerr(out, fp)
             if not B._same(buf, sn):
-                return 'R16:argument-modified:equalize_data', ''
+                return 'R16:argument-modified:equalize_data', 'the array holding data and tap values changed'
             return None
     except Exception as e:
         return 'R16:two-roles:raises:' + what, '%s: %s' % (type(e).__name__, str(e)[:150])
@@ -697,7 +756,7 @@ def gen_slow(rng, kind):
         else:
             vals = base[:, None] + 1e-10 * ramp
         data = _gauss_vec(rng, nsym * u)
-        steps.append({'vals': [B.pairs(row) for row in vals], 'data': B.pairs(data)})
+        steps.append({'vals': [B.pairs(row) for row in vals], 'data': B.pairs(data), 'tx': B.pairs(_gauss_vec(rng, ns))})
     return {'kind': 'slow', 'family': kind, 'fft': f, 'cp': c, 'used': u, 'idx': idx, 'steps': steps}
 
 
@@ -742,7 +801,9 @@ BIG_CONFIGS_THOROUGH = BIG_CONFIGS + [(200002, 200002, 200000, 200002), (1048576
 
 def config_case(F, C, U, U2):
     return {'kind': 'config', 'fft': F, 'cp': C, 'used': U, 'used2': U2, 'n': U + 1,
-            'lengths': [0, 1, U - 1, U, U + 1, 2 * U - 1, 2 * U, 2 * U + 1]}
+            'lengths': [0, 1, U - 1, U, U + 1, 2 * U - 1, 2 * U, 2 * U + 1,
+                        # lengths that single precision / a rounded quotient would identify with their neighbours
+                        2 ** 24 + 1, 2 ** 24 + 3, 2 ** 31 + 1, U * 10 ** 6 + 1, U * (10 ** 9 + 1) - 1]}
 
 
 def gen_reuse(rng, i):
@@ -769,13 +830,18 @@ def gen_two_roles(rng, what):
         a = sorted({0.0} | {float(rng.randint(1, 6)) for _ in range(k)})
         return {'kind': 'two-roles', 'what': what, 'a': a, 'draw': [[rng.gauss(), rng.gauss()] for _ in a],
                 'x': B.gen_symbols(rng, rng.randint(3, 12), integer=False)}
+    if what == 'profile-in-two-channels':
+        k = rng.randint(2, 4)
+        d = sorted({0.0} | {2.0 * rng.randint(1, 6) for _ in range(k)})
+        return {'kind': 'two-roles', 'what': what, 'delays': d, 'powers_dB': [round(-rng.uniform(0, 12), 3) for _ in d],
+                'draw': [[rng.gauss(), rng.gauss()] for _ in d], 'x': B.gen_symbols(rng, rng.randint(3, 12), integer=False)}
     f, c, u = small_config(rng, need_cp=False)
     x = _gauss_vec(rng, u * rng.randint(1, 3))
     x = x + (1.5 + 0.5j) * np.sign(x.real + 0.0)                         # tap values away from 0
     return {'kind': 'two-roles', 'what': what, 'fft': f, 'used': u, 'x': B.pairs(x)}
 
 
-TWO_ROLES = ['modulate+demodulate', 'powers-is-delays', 'data-is-taps']
+TWO_ROLES = ['modulate+demodulate', 'powers-is-delays', 'profile-in-two-channels', 'data-is-taps']
 
 
 # ------------------------------------------------------------------ oracle runs
@@ -918,4 +984,10 @@ def corr_close(ctx, b, quick):
             _, cond = fp_equalize(f, u, data, case['idx'], vals)
             b.add('eq %d %d %d %s %d %s %s' % (f, c, u, ','.join(map(str, case['idx'])), vals.shape[1], B.fl(vals), B.fl(data)),
                   _check(ctx, 'R15.equalize_data.slowly-varying', 'slow-%d-%d' % (i, j), out, 1e-11 * max(1.0, cond)))
+            tx = B.cx(st['tx'])
+            ch = make_matrix_channel(case['idx'], vals)
+            rx = ch.corrupt_data(tx.copy())
+            rep = np.asarray(ch.get_last_impulse_response().tap_values_sparse, dtype=complex)
+            b.add('corrupt %s %d %s %s' % (','.join(map(str, case['idx'])), rep.shape[1], B.fl(rep), B.fl(tx)),
+                  _check(ctx, 'R15.corrupt_data.slowly-varying', 'slow-%d-%d' % (i, j), rx, 1e-11))
         ctx.branch('R15:corr:slowly-varying')
